@@ -5,9 +5,9 @@ P = dict(
     mc=[dict(module="MC_C07", quick_cfg="MC_C07.cfg", thorough_cfg="MC_C07_thorough.cfg", workers=8),
         dict(module="MC_C07", quick_cfg="MC_C07_control.cfg", expect_violation=True, coverage=False, workers=8),
         # the whole thick-polyline renderer (EGThick), original and translated side by side, one row per step
-        dict(module="MC_C02p", quick_cfg="MC_C02p.cfg", thorough_cfg="MC_C02p_thorough.cfg", workers=10, thorough_timeout=3000),
+        dict(module="MC_C02p", quick_cfg="MC_C02p.cfg", thorough_cfg="MC_C02p_thorough.cfg", workers=10, thorough_timeout=3000, coverage=False),
         dict(module="MC_C02p", quick_cfg="MC_C07p_control.cfg", expect_violation=True, coverage=False, workers=6),
-        dict(module="MC_C02t", quick_cfg="MC_C07t.cfg", thorough_cfg="MC_C02t.cfg", workers=10),
+        dict(module="MC_C02t", quick_cfg="MC_C07t.cfg", thorough_cfg="MC_C02t.cfg", workers=10, coverage=False),
         dict(module="MC_C02t", quick_cfg="MC_C07t_control.cfg", expect_violation=True, coverage=False, workers=6)],
     required_events=["pair"],
     level_text="MC_C07 model-checks translation equivariance of the transcribed line-join intersection pipeline for all line "
